@@ -1,4 +1,312 @@
-/- C01 — model and specification (stub; see HACKING.md) -/
+/-
+  C01 — reading a file and writing it back loses nothing.
+
+  Model (mirrors the printers that `write_shelx_file` calls through `str()`), text as `List Char`:
+    ' '.join(spline) / Command.__str__ / Restraint.__str__   -> `joinBl 0`            (default printer)
+    str.format with the Atom format strings (atom.py)        -> `chunksOf`, `renderFmt`, `renderAtom`
+    '{:>w.ndf}' of a float                                   -> `fmtFixed nd`         (round-half-even of the exact value)
+    cards._fmt_number (repaired UNIT/SIZE/ACTA printer)      -> `fmtNum`
+    SFACTable.__repr__ (repaired) / the printer before       -> `renderSfac` / `renderSfacOld`
+    FVARs.__str__  (misc.chunks)                             -> `chunks`, `renderFvar`
+    SIZE/ACTA/STIR/WGHT/SYMM printers                        -> `renderSize` … `renderSymm`
+  Specification (code independent reader of a written line):
+    `splitWs` (tokens), `parseDec` (decimal numeral -> Rat), `readSfac`, `readFvar`, `normSymm`, `SameInstr`.
+-/
+import ShelxModel.Extracted.C01Tables
 namespace Shelx.C01
+open Ext
+
+abbrev Tok := List Char
+
+/-! ### text layer -/
+
+def blanks (n : Nat) : List Char := List.replicate n ' '
+
+/-- the pending token (kept reversed) is emitted -/
+def flush : List Char → List Tok
+  | [] => []
+  | c :: cs => [(c :: cs).reverse]
+
+/-- `str.split()` on blanks: `cur` is the token being read, reversed -/
+def splitGo : List Char → List Char → List Tok
+  | [], cur => flush cur
+  | c :: cs, cur => if c = ' ' then flush cur ++ splitGo cs [] else splitGo cs (c :: cur)
+
+def splitWs (s : List Char) : List Tok := splitGo s []
+
+/-- `sep.join(ts)` with a separator of `k+1` blanks -/
+def joinBl (k : Nat) : List Tok → List Char
+  | [] => []
+  | t :: ts => t ++ (ts.map fun u => blanks (k + 1) ++ u).flatten
+
+/-- a padded field: `l` blanks, the text, `r` blanks (a literal of blanks has empty text) -/
+structure Chunk where
+  l : Nat
+  t : Tok
+  r : Nat
+deriving Repr, DecidableEq
+
+def Chunk.text (c : Chunk) : List Char := blanks c.l ++ (c.t ++ blanks c.r)
+
+def renderChunks : List Chunk → List Char
+  | [] => []
+  | c :: cs => c.text ++ renderChunks cs
+
+def toksOf : List Chunk → List Tok
+  | [] => []
+  | c :: cs => if c.t = [] then toksOf cs else c.t :: toksOf cs
+
+/-- no two field texts touch: `o` = a token is pending with no blank after it yet -/
+def sep : Bool → List Chunk → Bool
+  | _, [] => true
+  | o, c :: cs =>
+    if c.t = [] then sep (o && (c.l + c.r == 0)) cs
+    else (!o || decide (1 ≤ c.l)) && sep (c.r == 0) cs
+
+/-! ### numbers -/
+
+/-- Python's rounding of the exact value: round half to even -/
+def roundHalfEven (x : Rat) : Int :=
+  let f := x.floor
+  let r := x - f
+  if r < 1/2 then f else if r > 1/2 then f + 1 else if f % 2 = 0 then f else f + 1
+
+def digitChar (d : Nat) : Char := Char.ofNat (48 + d)
+def digitVal (c : Char) : Nat := c.toNat - 48
+def isDigit (c : Char) : Bool := decide (48 ≤ c.toNat) && decide (c.toNat ≤ 57)
+
+/-- decimal digits, most significant first -/
+def natDigits (n : Nat) : List Nat :=
+  if h : n < 10 then [n] else natDigits (n / 10) ++ [n % 10]
+decreasing_by omega
+
+/-- exactly `k` digits (the value modulo 10^k) -/
+def fixDigits : Nat → Nat → List Nat
+  | 0, _ => []
+  | k + 1, m => fixDigits k (m / 10) ++ [m % 10]
+
+def fmtNat (n : Nat) : Tok := (natDigits n).map digitChar
+
+def fmtInt (n : Int) : Tok := (if n < 0 then ['-'] else []) ++ fmtNat n.natAbs
+
+/-- `'{:.ndf}'.format(x)` for nd ≥ 1: the decimal with `nd` places nearest to the exact value of `x`, ties to even;
+    a negative `x` keeps its sign even when it rounds to zero (`'-0.000000'`), as in CPython -/
+def fmtFixed (nd : Nat) (x : Rat) : Tok :=
+  let a := (roundHalfEven (x * (10 : Rat) ^ nd)).natAbs
+  (if x < 0 then ['-'] else []) ++ (fmtNat (a / 10 ^ nd) ++ '.' :: (fixDigits nd (a % 10 ^ nd)).map digitChar)
+
+/-- reader, fraction part: digits only -/
+def parseFrac : List Char → Nat → Nat → Option (Nat × Nat)
+  | [], a, k => some (a, k)
+  | c :: cs, a, k => if isDigit c then parseFrac cs (10 * a + digitVal c) (k + 1) else none
+
+/-- reader: digits, optionally `.` and digits -/
+def parseUns : List Char → Nat → Option Rat
+  | [], a => some (a : Rat)
+  | c :: cs, a =>
+    if isDigit c then parseUns cs (10 * a + digitVal c)
+    else if c = '.' then (parseFrac cs 0 0).map fun p => (a : Rat) + (p.1 : Rat) / (10 : Rat) ^ p.2
+    else none
+
+/-- the numeral reader of the specification: `[-]digits[.digits]` -/
+def parseDec : List Char → Option Rat
+  | [] => none
+  | c :: s => if c = '-' then (parseUns s 0).map fun v => -v else parseUns (c :: s) 0
+
+/-- `cards._fmt_number`: integral values as integers, anything else through `repr` (a parameter: CPython's
+    shortest round-trip representation is not modelled, it is assumed to read back as the same number) -/
+def fmtNum (pr : Rat → Tok) (x : Rat) : Tok := if x.den = 1 then fmtInt x.num else pr x
+
+def absR (x : Rat) : Rat := if x < 0 then -x else x
+
+/-- specification: the token is a numeral within `tol` of `x` -/
+def numCloseB (tol x : Rat) (t : Tok) : Bool :=
+  match parseDec t with
+  | some v => decide (absR (v - x) ≤ tol)
+  | none => false
+
+/-- specification: as many numerals as values, each within its tolerance -/
+def closeAll : List Tok → List (Rat × Rat) → Bool
+  | [], [] => true
+  | t :: ts, (x, tol) :: xs => numCloseB tol x t && closeAll ts xs
+  | _, _ => false
+
+/-- specification of a written atom line: same name, same scattering-factor number, every value within its
+    tolerance (`vals` = (value, tolerance) in file order) -/
+def specAtomLine (toks : List Tok) (name : Tok) (sfac : Nat) (vals : List (Rat × Rat)) : Bool :=
+  match toks with
+  | n :: s :: rest => (n == name) && numCloseB 0 (sfac : Rat) s && closeAll rest vals
+  | _ => false
+
+def tolCoord : Rat := 1 / 1000000
+def tolU : Rat := 1 / 100000
+
+/-! ### atoms -/
+
+inductive Val where
+  | str (s : Tok)
+  | int (n : Nat)
+  | num (x : Rat)
+deriving Repr
+
+/-- text of one replacement field (`'f'` without precision means 6 places) -/
+def fieldText (prec : Option Nat) : Val → Tok
+  | .str s => s
+  | .int n => fmtNat n
+  | .num x => fmtFixed (prec.getD 6) x
+
+def chunkOf (left : Bool) (w : Nat) (prec : Option Nat) (v : Val) : Chunk :=
+  let t := fieldText prec v
+  if left then ⟨0, t, w - t.length⟩ else ⟨w - t.length, t, 0⟩
+
+/-- `fmt.format(*vals)`: surplus arguments are ignored, a missing one is Python's IndexError (`none`) -/
+def chunksOf : List Piece → List Val → Option (List Chunk)
+  | [], _ => some []
+  | .lit n :: ps, vs => (chunksOf ps vs).map fun cs => ⟨n, [], 0⟩ :: cs
+  | .fld _ _ _ :: _, [] => none
+  | .fld l w p :: ps, v :: vs => (chunksOf ps vs).map fun cs => chunkOf l w p v :: cs
+
+/-- the texts of the fields, in order -/
+def fieldTexts : List Piece → List Val → List Tok
+  | [], _ => []
+  | .lit _ :: ps, vs => fieldTexts ps vs
+  | .fld _ _ _ :: _, [] => []
+  | .fld _ _ p :: ps, v :: vs => fieldText p v :: fieldTexts ps vs
+
+def renderFmt (fmt : List Piece) (vals : List Val) : Option (List Char) := (chunksOf fmt vals).map renderChunks
+
+/-- the test in `Atom.__str__`: anisotropic iff Σ|u[2:]| > 0.00001 -/
+def isAniso (us : List Rat) : Bool := decide (((us.drop 2).map absR).sum > 1 / 100000)
+
+structure AtomV where
+  name : Tok
+  sfac : Nat
+  xyz : List Rat         -- three values, with their free-variable codes (repaired printer)
+  sof : Rat
+  us : List Rat          -- `Atom.uvals`: always six values ([U, 0, 0, 0, 0, 0] for an isotropic atom)
+  qpeak : Bool
+  height : Rat
+deriving Repr
+
+/-- `Atom.__str__` (not inside FRAG) -/
+def renderAtom (a : AtomV) : Option (List Char) :=
+  let head := [Val.str a.name, Val.int a.sfac] ++ a.xyz.map Val.num ++ [Val.num a.sof]
+  if isAniso a.us && !a.qpeak then renderFmt anisFmt (head ++ a.us.map Val.num)
+  else if a.qpeak then
+    match qpeakUConst with
+    | some c => renderFmt qpeakFmt (head ++ [Val.num c, Val.num a.height])
+    | none => renderFmt qpeakFmt (head ++ [Val.num (a.us.headD 0), Val.num a.height])
+  else renderFmt isoFmt (head ++ a.us.map Val.num)
+
+/-! ### SFAC table -/
+
+inductive SfEntry where
+  | plain (el : Tok)
+  | expl (toks : List Tok)      -- element and the fourteen coefficients, as stored
+deriving Repr, DecidableEq
+
+/-- the collected plain elements are printed as one line -/
+def flushEls (els : List Tok) (out : List (List Tok)) : List (List Tok) := if els = [] then out else out ++ [els]
+
+/-- `SFACTable.__repr__` after the repair: lines as parameter-token lists (each is printed as
+    `'SFAC ' + '  '.join(line)`); a repeated plain element takes the explicit branch and raises KeyError (`none`) -/
+def sfacGo : List SfEntry → List Tok → List (List Tok) → Option (List (List Tok))
+  | [], els, out => some (flushEls els out)
+  | .plain e :: r, els, out => if e ∈ els then none else sfacGo r (els ++ [e]) out
+  | .expl ts :: r, els, out => sfacGo r [] (flushEls els out ++ [ts])
+
+def renderSfac (es : List SfEntry) : Option (List (List Tok)) := sfacGo es [] []
+
+/-- the printer as it was before the repair: the collected values were dropped, an empty element list printed -/
+def sfacGoOld : List SfEntry → List Tok → List (List Tok) → Option (List (List Tok))
+  | [], els, out => some (flushEls els out)
+  | .plain e :: r, els, out => if e ∈ els then none else sfacGoOld r (els ++ [e]) out
+  | .expl _ :: r, els, out => sfacGoOld r [] (flushEls els out ++ [[]])
+
+def renderSfacOld (es : List SfEntry) : Option (List (List Tok)) := sfacGoOld es [] []
+
+def isAlphaC (c : Char) : Bool := (decide (65 ≤ c.toNat) && decide (c.toNat ≤ 90)) || (decide (97 ≤ c.toNat) && decide (c.toNat ≤ 122))
+
+/-- a non-empty word of letters -/
+def isWord (t : Tok) : Bool := t.all isAlphaC && !t.isEmpty
+
+/-- `''.join(spline[1:]).isalpha()` on a list of (non-empty) tokens: at least one token, all of them letters only -/
+def allAlpha (ts : List Tok) : Bool := ts.all isWord && !ts.isEmpty
+
+/-- reader of the SFAC lines of a file: an all-letters line lists elements, any other line is one explicit entry -/
+def readSfac : List (List Tok) → List SfEntry
+  | [] => []
+  | l :: ls => (if allAlpha l then l.map SfEntry.plain else [SfEntry.expl l]) ++ readSfac ls
+
+/-- the text of one SFAC line -/
+def sfacLineText (params : List Tok) : List Char := "SFAC ".toList ++ joinBl 1 params
+
+/-! ### FVAR -/
+
+def chunksGo {α} (n : Nat) : Nat → List α → List (List α)
+  | 0, _ => []
+  | f + 1, l => if l = [] then [] else l.take n :: chunksGo n f (l.drop n)
+
+/-- `misc.chunks(l, n)` for n ≥ 1 -/
+def chunks {α} (n : Nat) (l : List α) : List (List α) := chunksGo n l.length l
+
+/-- `FVARs.__str__`: token lists of the printed lines (`'FVAR   ' + '   '.join(chunk)`) -/
+def renderFvar (vals : List Tok) : List (List Tok) := (chunks fvarChunk vals).map fun c => "FVAR".toList :: c
+
+def fvarLineText (c : List Tok) : List Char := "FVAR   ".toList ++ joinBl 2 c
+
+/-- reader: the values of all FVAR lines, in order -/
+def readFvar (lines : List (List Tok)) : List Tok := (lines.map List.tail).flatten
+
+/-! ### printer overrides (token level; the line is `' '.join`/`'  '.join` of the tokens) -/
+
+def renderUnit (pr : Rat → Tok) (vals : List Rat) : List Tok := "UNIT".toList :: vals.map (fmtNum pr)
+
+/-- `SIZE` (repaired): the dimensions that were given (at most three are stored) -/
+def renderSize (pr : Rat → Tok) (nums : List Rat) : List Tok := "SIZE".toList :: (nums.take 3).map (fmtNum pr)
+
+/-- `ACTA` (repaired): the first number and the words -/
+def renderActa (pr : Rat → Tok) (nums : List Rat) (words : List Tok) : List Tok :=
+  "ACTA".toList :: ((nums.take 1).map (fmtNum pr) ++ words)
+
+/-- `STIR`: `"STIR {} {}".format(sres if sres else '', step)`; step defaults to 0.01 -/
+def renderStir (pr : Rat → Tok) (nums : List Rat) : List Tok :=
+  let sres := match nums[0]? with | some s => if s = 0 then [] else [pr s] | none => []
+  let step := match nums[1]? with | some s => s | none => 1 / 100
+  "STIR".toList :: (sres ++ [pr step])
+
+def wghtDefaults : List Rat := [1 / 10, 0, 0, 0, 0, 33333 / 100000]
+
+/-- value of parameter `i`: the one given, else its default -/
+def withDefaults (defs : List Rat) (nums : List Rat) : List Rat :=
+  (nums.take defs.length) ++ defs.drop nums.length
+
+/-- `WGHT._as_string` (repaired): a and b always, c..f iff one of them differs from its default -/
+def renderWght (pr : Rat → Tok) (nums : List Rat) : List Tok :=
+  let v := withDefaults wghtDefaults nums
+  "WGHT".toList :: (if v.drop 2 = wghtDefaults.drop 2 then (v.take 2).map pr else v.map pr)
+
+/-- split at commas (empty components kept) -/
+def splitComma : List Char → List Char → List Tok
+  | [], cur => [cur.reverse]
+  | c :: cs, cur => if c = ',' then cur.reverse :: splitComma cs [] else splitComma cs (c :: cur)
+
+def joinWith (s : List Char) : List Tok → List Char
+  | [] => []
+  | t :: ts => t ++ (ts.map fun u => s ++ u).flatten
+
+/-- `SYMM._parse_line`: `''.join(spline[1:]).split(',')` -/
+def parseSymm (params : List Tok) : List Tok := splitComma params.flatten []
+
+/-- `SYMM._as_str`: `"SYMM  " + ", ".join(symmcard)` -/
+def renderSymm (comps : List Tok) : List Char := "SYMM  ".toList ++ joinWith [',', ' '] comps
+
+/-- reader: the operator of a SYMM line = the text after the four-letter keyword with the blanks removed, split at
+    the commas -/
+def normSymm (line : List Char) : List Tok := splitComma ((line.drop 4).filter (· ≠ ' ')) []
+
+/-- two parameter lists denote the same instruction: they agree once the omitted trailing parameters are filled in
+    with the SHELXL defaults -/
+def SameInstr (defs : List Rat) (tin tout : List Rat) : Prop := withDefaults defs tin = withDefaults defs tout
 
 end Shelx.C01
